@@ -98,16 +98,19 @@ def query(formulas, timeout_ms=10000, want_vars=None, nice=True, keep_smt2=False
         m = s.model()
         if nice and want_vars:
             # prefer a point on the 1/8 grid: exact in f64, so the replay is exact
-            s.push()
-            for v in want_vars.values():
-                s.add(z3.IsInt(v * 8))
-            s.set('timeout', min(timeout_ms, 3000))
-            t = time.time()
-            r2 = s.check()
-            STATS['solver_s'] += time.time() - t
-            if r2 == z3.sat:
-                m = s.model()
-            s.pop()
+            try:
+                s.push()
+                for v in want_vars.values():
+                    s.add(z3.IsInt(v * 8))
+                s.set('timeout', min(timeout_ms, 3000))
+                t = time.time()
+                r2 = s.check()
+                STATS['solver_s'] += time.time() - t
+                if r2 == z3.sat:
+                    m = s.model()
+                s.pop()
+            except z3.Z3Exception:
+                pass   # the refinement is a convenience; the first model stands
         point = {}
         for n, v in want_vars.items():
             val = m.eval(v, model_completion=True)
